@@ -237,3 +237,54 @@ func fieldTestedNonNil(b *ssa.BasicBlock, field int, base ssa.Value) bool {
 	}
 	return false
 }
+
+// c02ExplicitNumberByFlag: whether an enum's value / a bit's position was written is
+// decided from a flag the Builder sets with the statement, never from the number
+// itself: `item.val > 0` treats `value 0` as not given, so the enum is renumbered
+// after its predecessor (RFC 7950 9.6.4.2, 9.7.4.2).
+func c02ExplicitNumberByFlag(ctx *core.Ctx, r *core.Report) {
+	f := ctx.Method("meta", "compiler", "compileType")
+	if f == nil {
+		r.Fatalf("anchor meta.compiler.compileType not found")
+		return
+	}
+	for _, fld := range []struct{ typ, field string }{{"Enum", "val"}, {"Bit", "Position"}} {
+		loads, bad := 0, 0
+		var at token.Pos
+		core.Instrs(f, func(b *ssa.BasicBlock, in ssa.Instruction) {
+			u, isU := in.(*ssa.UnOp)
+			if !isU {
+				return
+			}
+			fa, isFa := u.X.(*ssa.FieldAddr)
+			if !isFa || faName(fa) != fld.field || !strings.HasSuffix(core.TypeName(core.Deref(fa.X.Type())), "meta."+fld.typ) {
+				return
+			}
+			loads++
+			if u.Referrers() == nil {
+				return
+			}
+			for _, ref := range *u.Referrers() {
+				if bo, isBo := ref.(*ssa.BinOp); isBo {
+					if k, isC := core.ConstInt(bo.Y); isC && k == 0 && isCompare(bo.Op) {
+						bad++
+						at = bo.Pos()
+					}
+				}
+			}
+		})
+		if at == token.NoPos {
+			at = f.Pos()
+		}
+		r.Ob("explicit-number-by-flag", "meta.compiler.compileType/"+fld.typ+"."+fld.field, ctx.Pos(at), bad == 0,
+			"the automatic numbering decides whether "+fld.typ+"."+fld.field+" was written by comparing the number with 0: an explicit 0 is taken as absent and replaced by the next free number")
+	}
+}
+
+func isCompare(op token.Token) bool {
+	switch op {
+	case token.EQL, token.NEQ, token.LSS, token.LEQ, token.GTR, token.GEQ:
+		return true
+	}
+	return false
+}
